@@ -215,6 +215,104 @@ def lazy_pair(rng):
     return unread, read, _hier_methods(labels, absent, depth), {'kind': 'IndexHierarchy(unread):%d' % depth, 'labels': [P.enc(l) for l in labels], 'history': [route]}
 
 
+# ---- an index DERIVED by operations against the same labels built directly ------------------------------------------------------------
+def _rebuild(ix):
+    labels = list(ix)
+    if ix.depth > 1:
+        return sf.IndexHierarchy.from_labels(labels, name=ix.name)
+    if ix.__class__ in (sf.Index, sf.IndexGO):
+        return sf.Index(labels, name=ix.name)
+    return ix.__class__(labels, name=ix.name)
+
+
+def derived_pair(rng):
+    '''an index that is the RESULT of one or two public operations (selections with steps, sorts, rolls, level edits, set operations, the index of a
+    Series / Frame that went through them) next to an index built directly from the same labels: results are ordinary containers'''
+    kind = rng.choice(['flat_s', 'flat_i', 'auto', 'auto', 'date', 'hier2', 'hier3', 'hier3', 'hier4', 'hier4'])
+    if kind == 'flat_s':
+        base = sf.Index(rng.sample(['a', 'b', 'c', 'd', 'e', 'f'], rng.randint(3, 6)))
+    elif kind == 'flat_i':
+        base = sf.Index(rng.sample(range(20), rng.randint(3, 6)))
+    elif kind == 'auto':
+        base = sf.Series(list(range(rng.randint(3, 7)))).index
+    elif kind == 'date':
+        base = sf.IndexDate(sorted('2020-01-%02d' % d for d in rng.sample(range(1, 28), rng.randint(3, 6))))
+    else:
+        depth = int(kind[-1])
+        pools = [['A', 'B', 'C'], [1, 2, 3], ['x', 'y'], [10, 20]][:depth]
+        labels = []
+
+        def rec(prefix, d):
+            if d == depth:
+                labels.append(tuple(prefix))
+                return
+            for v in rng.sample(pools[d], rng.randint(1, len(pools[d]))):
+                rec(prefix + [v], d + 1)
+        rec([], 0)
+        labels = labels[:9]
+        if len(labels) < 2:
+            labels = [tuple(p[0] for p in pools), tuple(p[-1] for p in pools)]
+        base = sf.IndexHierarchy.from_labels(labels)
+    n = len(base)
+    hier = base.depth > 1
+    via = rng.choice(['index', 'series', 'frame_index', 'frame_columns'])
+    if via == 'index':
+        obj = base
+        get = lambda o: o
+    elif via == 'series':
+        obj = sf.Series(np.arange(n), index=base)
+        get = lambda o: o.index
+    elif via == 'frame_index':
+        obj = sf.Frame(np.arange(2 * n).reshape(n, 2), index=base, columns=('p', 'q'))
+        get = lambda o: o.index
+    else:
+        obj = sf.Frame(np.arange(2 * n).reshape(2, n), index=('p', 'q'), columns=base)
+        get = lambda o: o.columns
+    col = via == 'frame_columns'
+    sel = lambda o, key: (o.iloc[:, key] if col else o.iloc[key])
+    steps = {
+        'iloc_step2': lambda o: sel(o, slice(None, None, 2)), 'iloc_rev': lambda o: sel(o, slice(None, None, -1)), 'iloc_tail': lambda o: sel(o, slice(1, None)),
+        'iloc_head': lambda o: sel(o, slice(0, max(2, n - 1))), 'iloc_list': lambda o: sel(o, sorted(rng.sample(range(n), max(2, n - 1)))),
+        'iloc_mask': lambda o: sel(o, np.array([i != 1 for i in range(len(get(o)))])), 'copy': lambda o: o.copy() if via == 'index' else o,
+        'rename': lambda o: o.rename('r'), 'roll': lambda o: (o.roll(1) if via == 'index' else o.roll(0 if col else 1, 1 if col else 0, include_index=not col, include_columns=col) if via.startswith('frame') else o.roll(1, include_index=True)),
+        'drop_first': lambda o: (o.drop.iloc[0] if not col else o.drop.iloc[:, 0]),
+    }
+    if via == 'index':
+        steps.update({'sort': lambda o: o.sort(), 'sort_desc': lambda o: o.sort(ascending=False), 'union_self': lambda o: o.union(o), 'intersection_self': lambda o: o.intersection(o),
+                      'difference_first': lambda o: o.difference(o.iloc[:1]) if len(o) > 2 else o})
+    else:
+        steps.update({'sort': lambda o: (o.sort_columns() if col else o.sort_index()), 'sort_desc': lambda o: (o.sort_columns(ascending=False) if col else o.sort_index(ascending=False)),
+                      'reindex_rev': lambda o: (o.reindex(columns=list(get(o))[::-1]) if col else o.reindex(list(get(o))[::-1])) if not hier else o})
+    if hier:
+        ax = {'columns': 'Z'} if col else {'index': 'Z'}
+        steps.update({'level_add': lambda o: o.level_add('Z') if via == 'index' else (o.relabel_level_add('Z') if via == 'series' else o.relabel_level_add(**ax)),
+                      'level_drop_leaf': lambda o: (o.level_drop(-1) if via == 'index' else o.relabel_level_drop(-1) if via == 'series' else o.relabel_level_drop(**{list(ax)[0]: -1})),
+                      'level_drop_outer': lambda o: (o.level_drop(1) if via == 'index' else o.relabel_level_drop(1) if via == 'series' else o.relabel_level_drop(**{list(ax)[0]: 1})),
+                      'rehierarch': lambda o: (o.rehierarch(list(range(get(o).depth))[::-1]) if via in ('index', 'series') else o.rehierarch(**{list(ax)[0]: list(range(get(o).depth))[::-1]}))})
+    hist = [kind, via]
+    level_steps = [k for k in steps if k.startswith('level_') or k == 'rehierarch']
+    for _ in range(rng.randint(1, 2)):
+        name = rng.choice(level_steps) if level_steps and rng.random() < 0.5 else rng.choice(sorted(steps))
+        obj = steps[name](obj)          # (a step the labels do not admit - duplicates after a leaf is dropped, say - raises: the event is then a history that raised, on both sides)
+        hist.append(name)
+    derived = get(obj)
+    if len(derived) < 1:
+        raise ValueError('empty')
+    rebuilt = _rebuild(derived)
+    labels = list(derived)
+    if derived.depth > 1:
+        absent = [tuple(['Q'] + list(labels[0][1:]))]
+        methods = _hier_methods(labels, absent, derived.depth)
+    else:
+        absent = ['zz' if isinstance(labels[0], str) else (np.datetime64('1999-01-01') if kind == 'date' else 999)]
+        methods = _flat_methods(labels, absent)
+        methods.pop('equals_fresh', None)
+    methods.pop('equals_fresh', None)
+    if rng.random() < 0.5:          # half of the calls are lookups: positions are where a derived index keeps hidden state (offsets, maps, the map-less form)
+        methods = {k: v for k, v in methods.items() if k.startswith(('contains', 'loc_to_iloc', 'iloc_', 'values', 'loc_', 'positions', 'reversed'))}
+    return derived, rebuilt, methods, {'kind': 'derived:' + kind, 'labels': [P.enc(l) for l in labels], 'history': hist}
+
+
 # ---- grow-only Frames -----------------------------------------------------------------------------------------------------------
 def _frame_methods(cols, hier):
     last = cols[-1]
@@ -437,9 +535,11 @@ def events(rng, n, kinds):
         try:
             stale, fresh, methods, info = mk(rng)
         except Exception as e:
+            if mk.__name__ == 'derived_pair':
+                continue          # (a derivation the labels do not admit)
             out.append({'kind': 'twin', 'what': 'history_raised', 'info': {'builder': mk.__name__}, 'stale': json.dumps({'err': P.err_category(e), 'msg': str(e)[:80]}), 'fresh': '"built"'})
             continue
-        if rng.random() < 0.35:
+        if rng.random() < (0.15 if mk.__name__ == 'derived_pair' else 0.35):
             methods = _auto_methods(fresh)
             if isinstance(fresh, sf.Bus):
                 methods = {k: v for k, v in methods.items() if k.split(':')[1] not in BUS_SKIP}
